@@ -48,3 +48,12 @@ CASES += [
     {"name": "combined tensor branch leaves the Hamiltonian protected", "kind": "mutant", "rule": "C14-F", "edits": [
         (O, "                ham.unprotect_basis()\n                ham.recover_cutoff_coupling()", "                ham.recover_cutoff_coupling()", 2)]},
 ]
+
+CASES += [
+    {"name": "reorganisation energy looked up with the running number of the state (the repaired defect)", "kind": "mutant", "rule": "C14-G", "edits": [
+        ("quantarhei/builders/aggregate_base.py", "                        self.sbi.get_reorganization_energy(\n                                                self.elinds[start+i]-1)",
+         "                        self.sbi.get_reorganization_energy(i)", 1)]},
+    {"name": "site of the state looked up first", "kind": "twin", "edits": [
+        ("quantarhei/builders/aggregate_base.py", "                        re[i] = \\\n                        self.sbi.get_reorganization_energy(\n                                                self.elinds[start+i]-1)",
+         "                        site = self.elinds[start+i]-1\n                        re[i] = self.sbi.get_reorganization_energy(self.elinds[start+i]-1)", 1)]},
+]
